@@ -3,7 +3,7 @@
 VROOT=$(cd "$(dirname "$0")/.." && pwd)
 cd $VROOT
 OUT=${SEEDED_OUT:-$VROOT/seeded}
-for wt in /tmp/wt_m1 /tmp/wt_m2 /tmp/wt_m3 /tmp/wt_m4 /tmp/wt_m5 /tmp/wt_m6 /tmp/wt_n1 /tmp/wt_n2 /tmp/wt_n3 /tmp/wt_n4 /tmp/wt_n5; do
+for wt in ${SEEDED_WTS:-/tmp/wt_p1 /tmp/wt_p2 /tmp/wt_p3}; do
   for d in $wt/seeded/*/; do
     id=$(basename $d)
     [ -f $d/meta.json ] || continue
